@@ -1275,6 +1275,14 @@ def m_ascii_case(c):
     return ("iv", r[0], r[1]) if r else None
 
 
+@model(r"^core::num::<impl u8>::is_ascii_digit$", r"^(std|core)::char::methods::<impl char>::is_ascii_digit$")
+def m_is_ascii_digit(c):
+    x = c.deref_num(0)
+    if x is None or x[0] not in ("n", "iv"):
+        return ("b", ("unknown",))
+    return ("b", ("and", ("cmp", "Le", ("n", None, 48), x), ("cmp", "Le", x, ("n", None, 57))))
+
+
 # =========================================================================== ranges / contains
 @model(r"^std::ops::RangeInclusive::<Idx>::new$")
 def m_range_incl_new(c):
